@@ -57,7 +57,11 @@ def outcome(fn, *args, timeout=20, **kw):
     except RecursionError as e:
         return ("err", "RecursionError", str(e)[:200])
     except Exception as e:  # library errors are observations, not harness errors
-        return ("err", type(e).__name__, str(e)[:300])
+        try:
+            msg = str(e)[:300]
+        except BaseException:  # exception arguments whose repr itself raises
+            msg = "<unprintable %s>" % type(e).__name__
+        return ("err", type(e).__name__, msg)
 
 
 def failure(sub, case, expected, observed, tags=(), behaviour="", note=""):
